@@ -114,6 +114,17 @@ def replay(rec, ctx, np, T):
                 if np.shape(rb) != shape or core.maxabs(np.ravel(rb) - np.array([complex(x[0]) for x in loop])) > 1e-10 or core.maxabs(np.ravel(tb) - np.array([complex(x[1]) for x in loop])) > 1e-10:
                     fails.append(('multilayer_stack_rt:batched:%s' % pol, 'batch shape %s differs from the per-element loop' % (shape,)))
                     break
+            # spatially varying index AND thickness over a 2-D batch (C-ordered pairing of index, thickness and output pixel)
+            shape = (2, 3)
+            fac_n = 1.0 + 0.05 * np.arange(6).reshape(shape)
+            fac_d = 1.0 + 0.3 * np.arange(6)[::-1].reshape(shape)
+            stack = [[st[0][0] * fac_n, st[0][1] * fac_d]] + [[np.full(shape, n), np.full(shape, d)] for n, d in st[1:]]
+            rb, tb = T.multilayer_stack_rt(np.array(stack), lam, pol, aoi=aoi, ambient_index=n0)
+            loop = [[T.multilayer_stack_rt([(st[0][0] * fac_n[i, j], st[0][1] * fac_d[i, j])] + st[1:], lam, pol, aoi=aoi, ambient_index=n0) for j in range(3)] for i in range(2)]
+            lr = np.array([[complex(x[0]) for x in row] for row in loop])
+            lt = np.array([[complex(x[1]) for x in row] for row in loop])
+            if np.shape(rb) != shape or core.maxabs(rb - lr) > 1e-10 or core.maxabs(tb - lt) > 1e-10:
+                fails.append(('multilayer_stack_rt:batched-2D-varying-index:%s' % pol, 'batch (2,3) with per-pixel index and thickness differs from the per-element loop'))
         if len(rec['stack']) == 1 and rec['lossless']:
             l = rec['stack'][0]
             n1 = float(fr(l['n'][0]))
